@@ -83,6 +83,17 @@ def run(ctx):
         n = 60 if quick else 600
         scns = [maptrace.gen_scenario(rng, max_levels=4, max_leaves=8, ncell=rng.randint(1, 30))
                 for _ in range(n)]
+        # runs of 91..140 cells in chunks of 3..9: more than ten chunks, so that the per-chunk result files
+        # (named by their row range) do not sort into row order - only the first and last stay in place
+        for i in range(4 if quick else 40):
+            ch = rng.randint(3, 9)
+            nc = rng.randint(91, 140)
+            if i % 2 == 0:
+                # ... and the last chunk starts at a row in 90..99, the alphabetically last range
+                start = rng.choice([s0 for s0 in range(90, 100) if s0 % ch == 0])
+                nc = start + rng.randint(1, ch)
+            scns.append(maptrace.gen_scenario(rng, max_levels=3, max_leaves=5, ncell=nc,
+                                              cfg={'chunk': ch, 'P': rng.randint(2, 3)}))
         results += campaign(ctx, scns, 'MapRun_Trace_c2s')
     nviol, blocked = report_for(ctx, results, PID)
     failed = sum(1 for r in results if not r['ok'])
